@@ -1,4 +1,4 @@
-import FitProps.WriterLemmas
+import FitProps.WriterOutcomeLemmas
 /-!
 # C09 — Output bytes do not depend on writer kind, buffering or batch vs stream
 
@@ -58,5 +58,45 @@ theorem C09_bufio_eq_direct (kind : Kind) (size : Nat) (d : Dest) (hend : d.pos 
     (writesFlush noFault { kind := kind, size := size, d := d } ps).1.d.content =
     (writesFlush noFault { kind := kind, size := 0, d := d } ps).1.d.content := by
   rw [(C09_bufio_transparent kind size d hend hlog ps).2.1, (C09_bufio_transparent kind 0 d hend hlog ps).2.1]
+
+/-- a new encoder on a destination that may already hold bytes: `n₀` is what the encoder itself has written there
+(`e.n`; 0 for a fresh `encoder.New`) -/
+def encOn (o : Opts) (kind : Kind) (size : Nat) (d₀ : Dest) (n₀ : Nat) : Enc := { Enc.new o kind size d₀ with n := n₀ }
+
+theorem encOn_ready (o : Opts) (kind : Kind) (size : Nat) (d₀ : Dest) (n₀ : Nat) (hend : d₀.pos = d₀.content.length)
+    (hown : kind = .at → n₀ = d₀.content.length) : (encOn o kind size d₀ n₀).Ready o :=
+  ⟨⟨⟨hend, fun _ => rfl⟩, rfl⟩, ⟨rfl, rfl, rfl⟩, hown⟩
+
+/-- DRY RUN = REAL RUN (early-check strategy, plain writers): the first pass leaves in the header exactly the number of
+record bytes (mod 2^32) the second pass writes, and leaves every message as it was — the compressed-timestamp field
+it took out is put back at its index. -/
+theorem C09_dryrun_equals_run (o : Opts) (ms : List WMsg) :
+    dryPass o (freshEnc o) 0 ms = ((encodeMsgs o (freshEnc o) ms).length % 4294967296, ms) := by
+  rw [dryPass_eq o _ _ _ (by decide)]; simp
+
+/-- SAME BYTES, batch: for every writer kind (plain / write-at / seeker / both), every write-buffer size (0 =
+unbuffered), every chain of FIT values and every destination that already holds `d₀` (for a write-at destination:
+bytes this encoder wrote, `n₀ = |d₀|`), on a healthy destination every `Encode` succeeds and the destination ends
+up holding exactly `d₀ ++ encodeChain o fits` — an expression in which neither the kind, nor the buffer size, nor the
+caller's header data sizes occur. -/
+theorem C09_same_bytes_batch (o : Opts) (kind : Kind) (size : Nat) (d₀ : Dest) (n₀ : Nat) (fs : List FitIn)
+    (hend : d₀.pos = d₀.content.length) (hlog : ∀ op ∈ d₀.log, op.ok = true)
+    (hown : kind = .at → n₀ = d₀.content.length) :
+    (encodeChainW noFault o (encOn o kind size d₀ n₀) fs).2.2 = true ∧
+    (encodeChainW noFault o (encOn o kind size d₀ n₀) fs).2.1 = fs.length ∧
+    (encodeChainW noFault o (encOn o kind size d₀ n₀) fs).1.w.d.content = d₀.content ++ encodeChain o (fitsOf fs) ∧
+    (encodeChainW noFault o (encOn o kind size d₀ n₀) fs).1.w.buf = [] := by
+  obtain ⟨_, _, _, h4, _, h6⟩ := chain_spec noFault o fs _ (encOn_ready o kind size d₀ n₀ hend hown)
+  have hok := h6 rfl ⟨hlog, rfl⟩
+  obtain ⟨j1, j2, j3⟩ := h4 hok
+  exact ⟨hok, j1, j3, j2.idle.buf⟩
+
+/-- … hence any two configurations leave the same bytes -/
+theorem C09_kinds_agree (o : Opts) (k₁ k₂ : Kind) (s₁ s₂ : Nat) (d₀ : Dest) (fs : List FitIn)
+    (hend : d₀.pos = d₀.content.length) (hlog : ∀ op ∈ d₀.log, op.ok = true) :
+    (encodeChainW noFault o (encOn o k₁ s₁ d₀ d₀.content.length) fs).1.w.d.content =
+    (encodeChainW noFault o (encOn o k₂ s₂ d₀ d₀.content.length) fs).1.w.d.content := by
+  rw [(C09_same_bytes_batch o k₁ s₁ d₀ _ fs hend hlog (fun _ => rfl)).2.2.1,
+    (C09_same_bytes_batch o k₂ s₂ d₀ _ fs hend hlog (fun _ => rfl)).2.2.1]
 
 end Fit.C09
